@@ -194,8 +194,9 @@ def events(src, b, lo, hi, calls=()):
         found = []
         for m in STDOUT_RE.finditer(b, a, e):
             cl = match_close(b, m.end() - 1)
-            found.append((m.start(), {"kind": "out", "macro": m.group(1), "args": norm(src[m.end():cl]),
-                                      "newline": m.group(1) == "println!"}))
+            # ordered by the END of the macro call: its arguments (which may contain a `?`) are evaluated before it prints
+            found.append((cl, {"kind": "out", "macro": m.group(1), "args": norm(src[m.end():cl]),
+                               "newline": m.group(1) == "println!"}))
         for m in STDOUT_WRITE_RE.finditer(b, a, e):
             found.append((m.start(), {"kind": "out", "macro": "write", "args": norm(src[m.start():m.end() + 40]), "newline": False}))
         for m in STDERR_RE.finditer(b, a, e):
